@@ -2163,7 +2163,7 @@ def run(ctx):
                 p_['w_remote'] = [dtcodec.py_to_json(v) for v in gen_witnesses(rng, rem, 5) + all_small_ints(rem) + boundary_witnesses(rem)[:4]
                                   if dtcodec.encodable(v)]
         cases.append((c, 'proxy'))
-    for i in range(ctx.budget(1200, 20000)):
+    for i in range(ctx.budget(1000, 20000)):
         try:
             cases.append((gen_history(rng, 2 if not big else 3), 'history'))
         except Exception as e:
